@@ -8,7 +8,7 @@
     independent from-scratch-with-defaults specification.  Incremental behaviour of cyclic
     programs (later requests) is validated against the real engine, not proved - and known to
     deviate (recorded finding). *)
-From QV Require Import Common.Prelude Conc.CycleSearch Generated.CycleSearchShape Engine.Model Engine.CycleLemmas.
+From QV Require Import Common.Prelude Conc.CycleSearch Conc.CycleSearchCorrect Generated.CycleSearchShape Engine.Model Engine.CycleLemmas.
 From QV Require Import Engine.CoreSpec Engine.MdlSpec Engine.MdlCyc Engine.MdlCycRefuted.
 Open Scope N_scope.
 
@@ -27,6 +27,37 @@ Proof.
   change cycle_search_shape with ShapeMemo.      (* fails if the source no longer has the memo table *)
   destruct (search_v_terminates g cs target) as (b & m & E). rewrite E. discriminate.
 Qed.
+
+(** ... and its ANSWER is right: on every computing graph the search reports a cycle exactly when the
+    target is reachable from the callees it starts from - for the way the current source combines
+    the answers of the callees (`found |= reaches`, read from the source on every run).  The
+    variant that assigns instead of accumulating (`found = reaches`) is refuted. *)
+Definition search_current_acc (fuel : nat) (g : graph) (cs : list N) (target : N) : option bool :=
+  match cycle_search_acc with
+  | AccOr => option_map fst (search_v fuel g cs target [])
+  | AccOverwrite => option_map fst (search_w fuel g cs target [])
+  | AccUnknown => None
+  end.
+Theorem C06_search_answer_correct :
+  forall g cs target, exists b, search_current_acc (S (length g)) g cs target = Some b /\ (b = true <-> reach g cs target).
+Proof.
+  intros g cs target. unfold search_current_acc.
+  change cycle_search_acc with AccOr.          (* fails if the source no longer accumulates with `|=` *)
+  destruct (search_v_correct g cs target) as (b & m & E & H). exists b. rewrite E. split; [reflexivity|exact H].
+Qed.
+Theorem C06_search_overwrite_refuted :
+  exists g cs target m', reach g cs target /\ search_w (S (length g)) g cs target [] = Some (false, m').
+Proof. exact search_w_incomplete. Qed.
+(** on acyclic computing graphs (the evaluation stack and its pending callees) every entry of the
+    memo table - hence every cycle mark - is exact too; on a graph with a cycle among computing
+    queries an entry can be [false] for a query that does reach the target ([search_v_memo_inexact]) *)
+Theorem C06_search_marks_exact_on_dags :
+  forall g (rank : N -> nat),
+    (forall x cs0 y, succ g x = Some cs0 -> In y cs0 -> succ g y <> None -> (rank y < rank x)%nat) ->
+    forall target fuel cs b m', search_v fuel g cs target [] = Some (b, m') ->
+      (b = true <-> reach g cs target) /\ forall k bk, memo_get m' k = Some bk -> (bk = true <-> kreach g target k).
+Proof. exact search_v_memo_exact_ranked. Qed.
+Check search_v_memo_inexact.
 
 (** without the table the search runs for ever on a computing cycle that avoids the target
     (reachable: queries unwound by a cyclic error stay computing while a task they spawned
@@ -97,6 +128,9 @@ Check cex_run.
 Check cex_spec.      (* the spec values, obtained by applying the theorem: its premises are satisfiable *)
 
 Print Assumptions C06_search_terminates.
+Print Assumptions C06_search_answer_correct.
+Print Assumptions C06_search_overwrite_refuted.
+Print Assumptions C06_search_marks_exact_on_dags.
 Print Assumptions C06_cyc_spec_deterministic.
 Print Assumptions C06_fresh_cyclic_program_takes_defaults.
 Print Assumptions C06_fresh_cyclic_program_any_task_order.
